@@ -48,16 +48,16 @@ Proof.
   - rewrite windows_short by (cbn [length]; lia). intros [].
 Qed.
 
-(* ---- the current column slice keeps the right number of columns for windows >= 2 (both variants do;
-        the repaired one also for window 1 — then `2 <=` below may be weakened to `1 <=`) *)
-Lemma keeps_stop_of w : 2 <= w -> keeps_windows (stop_of w) (Z.to_nat w).
-Proof. intros H. unfold stop_of. first [apply keeps_pinned; lia | apply keeps_fixed; lia]. Qed.
+(* ---- the current column slice (the repaired one, /repo since c9f70fe) keeps the right number of columns for
+        every window >= 1 *)
+Lemma keeps_stop_of w : 1 <= w -> keeps_windows (stop_of w) (Z.to_nat w).
+Proof. intros H. unfold stop_of. apply keeps_fixed. exact H. Qed.
 
 (* ---- what in_domain says *)
 Definition op_cond (c : case) : bool :=
   match k_op c with
   | 2 => len (k_pat c) =? k_w c
-  | 3 => (len (k_cols c) =? k_w c) && forallb (fun col => len col =? nA c) (k_cols c)
+  | 3 | 7 => (len (k_cols c) =? k_w c) && forallb (fun col => len col =? nA c) (k_cols c)
   | 1 => true
   | _ => k_k c =? k_w c
   end.
@@ -67,6 +67,7 @@ Lemma in_domain_inv (c : case) : in_domain c = true ->
   /\ 1 <= k_k c /\ k_k c <= k_w c /\ k_w c <= 31 /\ k_w c <= len (concat (k_rows c)) /\ op_cond c = true.
 Proof.
   unfold in_domain. fold (op_cond c). intros H.
+  apply andb_true_iff in H. destruct H as [H _].
   apply andb_true_iff in H. destruct H as [H Hop].
   apply andb_true_iff in H. destruct H as [H _].
   apply andb_true_iff in H. destruct H as [H Htot].
@@ -153,24 +154,31 @@ Proof.
     rewrite L. lia.
 Qed.
 
-(* ---- the window of the case is one the current slice handles *)
-Definition window_handled (c : case) : Prop :=
+(* ---- the route of the case keeps the row structure (always for a ragged collection; for a dense 2-d input all
+        routes but get_motif_scores and get_kmers on un-encoded data, at /repo HEAD) *)
+Definition route_handled (c : case) : Prop :=
   match k_op c with
-  | 6 => True                       (* encode / to_string: no slicing involved *)
-  | 1 => 2 <= k_k c                 (* minimizers: the inner k-mer window *)
-  | _ => 2 <= k_w c
+  | 0 => k_kind c <> 3
+  | 3 | 7 => k_kind c = 0
+  | _ => True
   end.
 
 Lemma model_ok_op (c : case) : model_ok c = true ->
-  k_op c = 0 \/ k_op c = 1 \/ k_op c = 2 \/ k_op c = 3 \/ k_op c = 4 \/ k_op c = 5 \/ k_op c = 6.
+  k_op c = 0 \/ k_op c = 1 \/ k_op c = 2 \/ k_op c = 3 \/ k_op c = 4 \/ k_op c = 5 \/ k_op c = 6 \/ k_op c = 7.
 Proof.
   unfold model_ok. destruct (k_op c) as [|p|p]; [tauto| |discriminate].
   destruct p as [[[?|?|]|[?|?|]|]|[[?|?|]|[?|?|]|]|]; try discriminate; tauto.
 Qed.
 
+Lemma rows_close_refl_eq tol a b b' : b = b' -> rows_close tol a b = true -> rows_close tol a b' = true.
+Proof. intros ->. exact (fun H => H). Qed.
+
 Section Sound.
   Context (c : case) (Hdom : in_domain c = true) (Hm : model_ok c = true).
   Let D := in_domain_inv c Hdom.
+
+  Lemma sound_w1 : 1 <= k_w c.
+  Proof. destruct D as [_ [_ [_ [? [? _]]]]]. lia. Qed.
 
   Lemma sound_letters : letters_ok (nA c) (concat (k_rows c)) /\ Forall (letters_ok (nA c)) (k_rows c).
   Proof. apply letters_concat. exact (proj1 (proj2 (proj2 D))). Qed.
@@ -187,8 +195,7 @@ Section Sound.
     apply in_map_iff in Hws. destruct Hws as [r [<- Hr]]. split.
     - destruct sound_letters as [_ Lr]. rewrite Forall_forall in Lr.
       exact (windows_In_letters (nA c) (wn c) r win (Lr r Hr) Hin).
-    - apply windows_In_length in Hin. unfold wn in Hin.
-      destruct D as [_ [_ [_ [? [? _]]]]]. unfold len. lia.
+    - apply windows_In_length in Hin. unfold wn in Hin. pose proof sound_w1. unfold len. lia.
   Qed.
 
   Lemma sound_window_text win : In win (all_windows c) ->
@@ -199,13 +206,13 @@ Section Sound.
   Qed.
 
   Lemma spec_kmers_concat : concat (spec_kmers (nA c) (wn c) (k_rows c)) = map (le_value (nA c)) (all_windows c).
-  Proof.
-    unfold spec_kmers, per_row, all_windows. rewrite concat_map, map_map. reflexivity.
-  Qed.
+  Proof. unfold spec_kmers, per_row, all_windows. rewrite concat_map, map_map. reflexivity. Qed.
 
-  Lemma sound_op0 : k_op c = 0 -> 2 <= k_w c -> spec_ok c = true.
+  Lemma sound_op0 : k_op c = 0 -> k_kind c <> 3 -> spec_ok c = true.
   Proof.
-    intros Eop Hw. unfold spec_ok, model_ok in *. rewrite Hdom. rewrite Eop in *. cbn [andb].
+    intros Eop Hkind. pose proof sound_w1 as Hw. unfold spec_ok, model_ok in *. rewrite Hdom. rewrite Eop in *. cbn [andb].
+    assert (Er : kmers_rows c = k_rows c) by (unfold kmers_rows; destruct (Z.eqb_spec (k_kind c) 3); [contradiction|reflexivity]).
+    rewrite Er in Hm.
     apply andb_true_iff in Hm. destruct Hm as [Hm' Hl].
     apply andb_true_iff in Hm'. destruct Hm' as [He Ho]. rewrite He. cbn [andb].
     apply zll_eqb_eq in Ho, Hl. rewrite Hl, Ho. unfold get_kmers.
@@ -214,18 +221,18 @@ Section Sound.
     rewrite spec_kmers_concat, map_map. apply zll_eqb_eq. apply map_ext_in. exact sound_window_text.
   Qed.
 
-  Lemma sound_op1 : k_op c = 1 -> 2 <= k_k c -> spec_ok c = true.
+  Lemma sound_op1 : k_op c = 1 -> spec_ok c = true.
   Proof.
-    intros Eop Hw. destruct D as [_ [_ [_ [Hk1 [Hkw [_ [Htot _]]]]]]].
+    intros Eop. destruct D as [_ [_ [_ [Hk1 [Hkw [_ [Htot _]]]]]]].
     unfold spec_ok, model_ok in *. rewrite Hdom. rewrite Eop in *. cbn [andb].
     unfold get_minimizers in Hm.
     rewrite minimizers_row_local in Hm; [|lia|lia|lia|apply keeps_stop_of; lia|apply keeps_stop_of; lia].
     apply andb_true_iff in Hm. destruct Hm as [He Ho]. rewrite He. cbn [andb]. exact Ho.
   Qed.
 
-  Lemma sound_op2 : k_op c = 2 -> 2 <= k_w c -> spec_ok c = true.
+  Lemma sound_op2 : k_op c = 2 -> spec_ok c = true.
   Proof.
-    intros Eop Hw. destruct D as [_ [_ [_ [_ [_ [_ [_ Hop]]]]]]]. unfold op_cond in Hop.
+    intros Eop. pose proof sound_w1 as Hw. destruct D as [_ [_ [_ [_ [_ [_ [_ Hop]]]]]]]. unfold op_cond in Hop.
     unfold spec_ok, model_ok in *. rewrite Hdom. rewrite Eop in *. cbn [andb]. apply Z.eqb_eq in Hop.
     apply andb_true_iff in Hm. destruct Hm as [He Ho]. rewrite He. cbn [andb].
     apply zll_eqb_eq in Ho. rewrite Ho. unfold match_string.
@@ -233,29 +240,45 @@ Section Sound.
     generalize (keeps_stop_of (len (k_pat c)) ltac:(lia)). unfold len. rewrite Nat2Z.id. exact (fun K => K).
   Qed.
 
-  Lemma sound_op3 : k_op c = 3 -> 2 <= k_w c -> spec_ok c = true.
+  Lemma sound_motif_eq : (k_op c = 3 \/ k_op c = 7) -> k_kind c = 0 ->
+    get_motif_scores (k_cols c) (motif_rows c) = spec_motif (k_cols c) (k_rows c).
   Proof.
-    intros Eop Hw. destruct D as [_ [_ [_ [_ [_ [_ [_ Hop]]]]]]]. unfold op_cond in Hop.
-    unfold spec_ok, model_ok in *. rewrite Hdom. rewrite Eop in *. cbn [andb].
-    apply andb_true_iff in Hop. destruct Hop as [Hop _]. apply Z.eqb_eq in Hop.
-    apply andb_true_iff in Hm. destruct Hm as [He Ho]. rewrite He. cbn [andb].
-    apply zll_eqb_eq in Ho. rewrite Ho. unfold get_motif_scores.
-    rewrite motif_row_local; [apply zll_eqb_refl|lia|].
+    intros Eop Hkind. pose proof sound_w1 as Hw. destruct D as [_ [_ [_ [_ [_ [_ [_ Hop]]]]]]]. unfold op_cond in Hop.
+    assert (Hl : len (k_cols c) = k_w c).
+    { destruct Eop as [E|E]; rewrite E in Hop; apply andb_true_iff in Hop; destruct Hop as [Hop _]; apply Z.eqb_eq in Hop; exact Hop. }
+    unfold motif_rows. rewrite Hkind. cbn [Z.eqb]. unfold get_motif_scores.
+    apply motif_row_local; [lia|].
     generalize (keeps_stop_of (len (k_cols c)) ltac:(lia)). unfold len. rewrite Nat2Z.id. exact (fun K => K).
   Qed.
 
-  Lemma sound_op4 : k_op c = 4 -> 2 <= k_w c -> spec_ok c = true.
+  Lemma sound_op3 : k_op c = 3 -> k_kind c = 0 -> spec_ok c = true.
   Proof.
-    intros Eop Hw. unfold spec_ok, model_ok in *. rewrite Hdom. rewrite Eop in *. cbn [andb].
+    intros Eop Hkind. pose proof (sound_motif_eq (or_introl Eop) Hkind) as E.
+    unfold spec_ok, model_ok in *. rewrite Hdom. rewrite Eop in *. cbn [andb].
+    apply andb_true_iff in Hm. destruct Hm as [He Ho]. rewrite He. cbn [andb].
+    rewrite E in Ho. exact Ho.
+  Qed.
+
+  Lemma sound_op7 : k_op c = 7 -> k_kind c = 0 -> spec_ok c = true.
+  Proof.
+    intros Eop Hkind. pose proof (sound_motif_eq (or_intror Eop) Hkind) as E.
+    unfold spec_ok, model_ok in *. rewrite Hdom. rewrite Eop in *. cbn [andb].
+    apply andb_true_iff in Hm. destruct Hm as [He Ho]. rewrite He. cbn [andb].
+    rewrite E in Ho. exact Ho.
+  Qed.
+
+  Lemma sound_op4 : k_op c = 4 -> spec_ok c = true.
+  Proof.
+    intros Eop. pose proof sound_w1 as Hw. unfold spec_ok, model_ok in *. rewrite Hdom. rewrite Eop in *. cbn [andb].
     apply andb_true_iff in Hm. destruct Hm as [Hm' Hl].
     apply andb_true_iff in Hm'. destruct Hm' as [He Ho]. rewrite He. cbn [andb].
     apply zll_eqb_eq in Ho, Hl. rewrite (labels_model_ok c Hdom Hl), andb_true_r. rewrite Ho.
     unfold count_kmers_flat. rewrite count_flat_row_local; [apply zll_eqb_refl|lia|apply keeps_stop_of; lia|apply sound_domk; lia].
   Qed.
 
-  Lemma sound_op5 : k_op c = 5 -> 2 <= k_w c -> spec_ok c = true.
+  Lemma sound_op5 : k_op c = 5 -> spec_ok c = true.
   Proof.
-    intros Eop Hw. unfold spec_ok, model_ok in *. rewrite Hdom. rewrite Eop in *. cbn [andb].
+    intros Eop. pose proof sound_w1 as Hw. unfold spec_ok, model_ok in *. rewrite Hdom. rewrite Eop in *. cbn [andb].
     apply andb_true_iff in Hm. destruct Hm as [Hm' Hl].
     apply andb_true_iff in Hm'. destruct Hm' as [He Ho]. rewrite He. cbn [andb].
     apply zll_eqb_eq in Ho, Hl. rewrite (labels_model_ok c Hdom Hl), andb_true_r. rewrite Ho.
@@ -274,11 +297,11 @@ Section Sound.
   Qed.
 End Sound.
 
-Theorem model_ok_implies_spec_ok (c : case) :
-  in_domain c = true -> window_handled c -> model_ok c = true -> spec_ok c = true.
+Theorem model_ok_implies_spec_ok_routes (c : case) :
+  in_domain c = true -> route_handled c -> model_ok c = true -> spec_ok c = true.
 Proof.
-  intros Hdom Hwin Hm. unfold window_handled in Hwin.
-  destruct (model_ok_op c Hm) as [E|[E|[E|[E|[E|[E|E]]]]]]; rewrite E in Hwin.
+  intros Hdom Hr Hm. unfold route_handled in Hr.
+  destruct (model_ok_op c Hm) as [E|[E|[E|[E|[E|[E|[E|E]]]]]]]; rewrite E in Hr.
   - apply sound_op0; assumption.
   - apply sound_op1; assumption.
   - apply sound_op2; assumption.
@@ -286,4 +309,27 @@ Proof.
   - apply sound_op4; assumption.
   - apply sound_op5; assumption.
   - apply sound_op6; assumption.
+  - apply sound_op7; assumption.
 Qed.
+
+(* the property's own input class: a ragged collection (k_kind = 0) — every window >= 1, all eight operations *)
+Theorem model_ok_implies_spec_ok (c : case) :
+  in_domain c = true -> k_kind c = 0 -> model_ok c = true -> spec_ok c = true.
+Proof.
+  intros Hdom Hk Hm. apply model_ok_implies_spec_ok_routes; try assumption.
+  unfold route_handled. rewrite Hk. destruct (k_op c) as [|p|p]; try exact I; [discriminate|].
+  destruct p as [[[?|?|]|[?|?|]|]|[[?|?|]|[?|?|]|]|]; try exact I; reflexivity.
+Qed.
+
+(* the two dense routes as they are at /repo HEAD (dense_rows_pinned: the 2-d input is treated as ONE row): the
+   result is not the per-row value — stated about the pinned route itself, so it survives the one-line switches *)
+Theorem dense_routes_refuted :
+  let rows := [[0;1;2;3]; [3;3;2;0]; [1;1;1;0]] in                 (* ACGT, TTGA, CCCA as a 3 x 4 array *)
+  let cols := [[1;10;100;1000]; [2;20;200;2000]] in
+  get_motif_scores_with stop_fixed cols (dense_rows_pinned rows) = [[21; 210; 2100; 3000; 3000; 1200; 102; 21; 30; 30; 12]]
+  /\ get_motif_scores_with stop_fixed cols (dense_rows_pinned rows) <> spec_motif cols rows
+  /\ get_kmers_with stop_fixed 4 2 (dense_rows_pinned rows) = [[4; 9; 14; 15; 15; 11; 2; 4; 5; 5; 1]]
+  /\ get_kmers_with stop_fixed 4 2 (dense_rows_pinned rows) <> spec_kmers 4 2 rows
+  /\ get_motif_scores_with stop_fixed cols (dense_rows_fixed rows) = spec_motif cols rows
+  /\ get_kmers_with stop_fixed 4 2 (dense_rows_fixed rows) = spec_kmers 4 2 rows.
+Proof. vm_compute. repeat split; try reflexivity; discriminate. Qed.
